@@ -1061,8 +1061,10 @@ fn scenario_lines(sc: &str) -> Result<Violations, String> {
     let w = mk_world(0);
     let mut v: Violations = vec![];
     let (mut c, mut rx) = Client::new_empty_and_receiver();
+    // A: an administrator that has selected database d;  B: an administrator that has selected nothing
     let auth = sc.starts_with("A:");
-    let line = if auth { &sc[2..] } else { sc };
+    let auth_only = sc.starts_with("B:");
+    let line = if auth || auth_only { &sc[2..] } else { sc };
     // LONG|<prefix>|<unit>|<n>  stands for  <prefix> followed by <unit> repeated n times (long lines with multi-byte characters at every alignment)
     let expanded: String;
     let line = if line.starts_with("LONG|") {
@@ -1072,6 +1074,7 @@ fn scenario_lines(sc: &str) -> Result<Violations, String> {
         expanded.as_str()
     } else { line };
     if auth { run_cmd(&w, &mut c, &mut rx, "auth u p"); run_cmd(&w, &mut c, &mut rx, "use-db d tok"); }
+    if auth_only { run_cmd(&w, &mut c, &mut rx, "auth u p"); }
     let out = catch_unwind(AssertUnwindSafe(|| run_cmd(&w, &mut c, &mut rx, line)));
     chk(&mut v, "C10.safety", out.is_ok());
     let (mut c2, mut rx2) = Client::new_empty_and_receiver();
@@ -1765,18 +1768,18 @@ fn all_lines_scenarios() -> Vec<String> {
         "set-permissions", "snapshot", "election", "election candidate", "election win", "ack", "rp", "replicate", "replicate-remove", "replicate-increment", "replicate-since",
         "replicate-snapshot", "resolve", "debug", "arbiter", "cluster-state", "metrics-state", "list-commands", "set-primary", "set-secoundary", "nosuch", ""];
     let args = ["", " ", "x", "x y", "x 2147483647 v", "x -2147483648 v", "x -2 v", "k 2147483647", "k -2147483648", "18446744073709551616 s", "340282366920938463463374607431768211456 n",
-        "x y z w v", "$$token", "a;b", "é ü", "d k", "1 nosuch k 0 v", "1 d secret 0 v", "1 $admin k 0 v", "nosuch tok", "nosuch k -1 v", "nosuch k"];
+        "x y z w v", "$$token", "a;b", "é ü", "d k", "1 nosuch k 0 v", "1 d secret 0 v", "1 $admin k 0 v", "nosuch tok", "nosuch k -1 v", "nosuch k", "false d", "true d", "false nosuch", "usr r *", "d -1 v"];
     let mut out = vec![];
-    for w in words { for a in args { let l = format!("{} {}", w, a); out.push(l.trim_end().to_string()); out.push(format!("A:{}", l.trim_end())); } }
+    for w in words { for a in args { let l = format!("{} {}", w, a); out.push(l.trim_end().to_string()); out.push(format!("A:{}", l.trim_end())); out.push(format!("B:{}", l.trim_end())); } }
     out.sort(); out.dedup();
     // an administrator may legitimately change $$token, after which the probe's login would fail: not a crash
-    out.retain(|l| !(l.starts_with("A:") && l.contains("$$token")));
+    out.retain(|l| !((l.starts_with("A:") || l.starts_with("B:")) && l.contains("$$token")));
     // long lines: ASCII padding of 0..3 bytes, then a multi-byte character repeated, so that every power-of-two byte offset falls inside a character for some of them
     for unit in ["é", "日", "😀", "x"] { for pad in ["", "a", "ab", "abc"] { for n in [40usize, 100, 300, 600, 1100, 2100, 4200, 33000] {
         out.push(format!("LONG|set k{} |{}|{}", pad, unit, n)); out.push(format!("A:LONG|set k{} |{}|{}", pad, unit, n));
         out.push(format!("LONG|get {}|{}|{}", pad, unit, n));
     } } }
-    out.retain(|l| { let b = l.trim_start_matches("A:"); !(b.starts_with("election") && l.starts_with("A:")) && !b.starts_with("join") && !b.starts_with("leave") && !b.starts_with("set-primary") && !b.starts_with("set-secoundary") && !b.starts_with("replicate-since") && !(b.starts_with("debug") && l.starts_with("A:")) });
+    out.retain(|l| { let adm = l.starts_with("A:") || l.starts_with("B:"); let b = l.trim_start_matches("A:").trim_start_matches("B:"); !(b.starts_with("election") && adm) && !b.starts_with("join") && !b.starts_with("leave") && !b.starts_with("set-primary") && !b.starts_with("set-secoundary") && !b.starts_with("replicate-since") && !(b.starts_with("debug") && adm) });
     out
 }
 
